@@ -276,7 +276,21 @@ pub fn run_cli(sc: &Scenario, renderer: &str) -> Observation {
     // documents
     for d in &sc.docs {
         let (text, at) = render_doc(d);
-        let p = doc_root.join(&d.path);
+        let mut p = doc_root.join(&d.path);
+        if let Some(real) = &d.stored_at {
+            // the directory of `path` is a symbolic link to the directory the file is stored in
+            let realp = doc_root.join(real);
+            if let (Some(link_dir), Some(real_dir)) = (p.parent().map(|x| x.to_path_buf()), realp.parent().map(|x| x.to_path_buf())) {
+                let _ = std::fs::create_dir_all(&real_dir);
+                if let Some(pp) = link_dir.parent() {
+                    let _ = std::fs::create_dir_all(pp);
+                }
+                if !link_dir.exists() {
+                    let _ = std::os::unix::fs::symlink(&real_dir, &link_dir);
+                }
+            }
+            p = doc_root.join(&d.path);
+        }
         if let Some(parent) = p.parent() {
             let _ = std::fs::create_dir_all(parent);
         }
@@ -332,6 +346,9 @@ pub fn run_cli(sc: &Scenario, renderer: &str) -> Observation {
     }
     if sc.cli.cram_compat {
         args.push("--cram-compat".into());
+    }
+    if sc.cli.debug {
+        args.push("--debug".into());
     }
     if sc.cli.work_directory {
         args.push("--work-directory".into());
